@@ -3,6 +3,7 @@ package main
 // monitors living in their own packages (built by sub-agents, reviewed and
 // integrated by the coordinator)
 import (
+	_ "verif/harness/checks/byz"
 	_ "verif/harness/checks/limits"
 	_ "verif/harness/checks/rhphost"
 	_ "verif/harness/checks/rhprenter"
